@@ -18,32 +18,19 @@ SYNS = ["der", "cper", "coer", "xer", "cxer"]
 EXTRA = os.path.join(HARNESS, "moddrv_wide.inc")
 
 
-def frames(err):
+def frames(err, rc=""):
     """top frames of a sanitizer report / signal"""
     fr = re.findall(r"#\d+ 0x[0-9a-f]+ in (\S+)", err)
-    kind = re.search(r"(runtime error: [^\n]*|ERROR: AddressSanitizer: [^\n]*|LeakSanitizer[^\n]*)", err)
-    k = kind.group(1) if kind else "?"
+    kind = re.search(r"(runtime error: [^\n]*|ERROR: AddressSanitizer: [^\n]*|LeakSanitizer[^\n]*|Assertion [^\n]*)", err)
+    k = "HANG" if str(rc).startswith("HANG") else kind.group(1) if kind else "?"
     k = re.sub(r"0x[0-9a-f]+", "ADDR", k)
     k = re.sub(r"\b\d+\b", "N", k)
     return k, [f for f in fr if not f.startswith("__")][:6]
 
 
 def run_robust(exe, lines):
-    """run lines; on a crash record (line, rc, stderr) and go on after it"""
-    outs, crashes = [], []
-    i = 0
-    while i < len(lines):
-        rc, out, err = run_lines(exe, lines[i:], timeout=600, env=SAN_ENV)
-        outs += out[:len(lines) - i]
-        if len(out) >= len(lines) - i:
-            if rc != 0:      # died at exit (leak report)
-                crashes.append((None, rc, err))
-            break
-        bad = i + len(out)
-        crashes.append((lines[bad], rc, err))
-        outs.append("CRASH")
-        i = bad + 1
-    return outs, crashes
+    outs, events = widefind.run_robust(exe, lines)
+    return outs, [(lines[i] if kind != "EXIT" else None, "%s:%s" % (kind, rc), err) for i, kind, rc, err in events]
 
 
 def probe_module(m, rng_seeds, nvals):
@@ -57,7 +44,7 @@ def probe_module(m, rng_seeds, nvals):
             lines.append("rfill %s %d %d" % (tn, rng_seeds.below(100000), rng_seeds.choice([8, 32, 64, 200])))
     outs, crashes = run_robust(m["exe"], lines)
     for l, rc, err in crashes:
-        k, fr = frames(err)
+        k, fr = frames(err, rc)
         recs.append({"cls": "crash", "stage": "rfill", "tn": l.split()[1] if l else None, "cmd": l, "rc": rc, "kind": k, "frames": fr, "err": err[-1800:]})
     vals = set()
     nfill = collections.Counter()
@@ -76,14 +63,14 @@ def probe_module(m, rng_seeds, nvals):
     cr = {l: (rc, err) for l, rc, err in crashes if l}
     for l, rc, err in crashes:
         if l is None:
-            k, fr = frames(err)
+            k, fr = frames(err, rc)
             recs.append({"cls": "crash", "stage": "exit", "tn": None, "cmd": None, "rc": rc, "kind": k, "frames": fr, "err": err[-1800:]})
     nok = 0
     for l, o in zip(l2, outs):
         _, tn, _, v, s = l.split()
-        if o == "CRASH":
+        if o in ("CRASH", "HANG"):
             rc, err = cr[l]
-            k, fr = frames(err)
+            k, fr = frames(err, rc)
             recs.append({"cls": "crash", "stage": "rt", "tn": tn, "syn": s, "val": v, "cmd": l, "rc": rc, "kind": k, "frames": fr, "err": err[-1800:]})
             continue
         st = o.split("=", 1)[1] if "=" in o else o
